@@ -26,7 +26,7 @@ MAXAR = 3
 
 def wrapper_source():
     lines = ['w_assertz(T) :- assertz(T).', 'w_asserta(T) :- asserta(T).', 'w_retract(T) :- retract(T).',
-             'w_retractall(T) :- retractall(T).', 'w_nil([]).']
+             'w_retractall(T) :- retractall(T).', 'w_nil([]).', 'w_py_clear :- py_clear.']
     for n in NAMES:
         for ar in range(MAXAR + 1):
             if ar == 0:
@@ -126,6 +126,27 @@ def g_xev(e):
         return '(XOpen %s %s)' % (g_nat(e[1]), g_ev(e[2]))
     return '(XBase %s)' % g_ev(e)
 
+def rb_mask(case):
+    """which events are followed by a read-back of all keys IN THE MODEL (the implementation is read back after every
+    event, for the oracle).  Histories over big predicates: not while the predicate is loaded (the first `bulk` events) and
+    only after events that can change the store (assert, retractall, clear, the last of a run of next() on a retract) - the printed
+    observation of a 64-fact predicate after each of 130 events is what costs time, not the model."""
+    evs = case['events']
+    if has_open(evs) or not case.get('bulk_rb'):
+        return [True] * len(evs)
+    bulk = case.get('bulk', 0)
+    kind = {}
+    mask = []
+    for i, e in enumerate(evs):
+        if e[0] == 'start':
+            kind[e[1]] = e[2]
+        upd = e[0] in ('assert', 'retractall', 'clear')
+        if e[0] == 'next' and kind.get(e[1]) == 'r':
+            # a run of next() on one retract cursor: read back after the last of them
+            upd = not (i + 1 < len(evs) and evs[i + 1] == e)
+        mask.append(i >= bulk and (upd or i == len(evs) - 1))
+    return mask
+
 def model_expr(case):
     evs = []
     rb = readback_events(case['keys'])
@@ -135,25 +156,29 @@ def model_expr(case):
             evs.append(g_xev(e))
             evs.extend(g_xev(r) for r in rb)
         return '(run_xevents 200 %s)' % g_list(evs)
-    for e in case['events']:
+    mask = rb_mask(case)
+    for i, e in enumerate(case['events']):
         evs.append(g_ev(e))
-        evs.extend(g_ev(r) for r in rb)
+        if mask[i]:
+            evs.extend(g_ev(r) for r in rb)
     return '(run_events 200 %s)' % g_list(evs)
 
 def split_model_obs(case, mo):
     """model observation (flat list, one per event incl. read-backs) -> list of [event_obs, readbacks] and
     the index of the first stuck event (or None)"""
     nk = len(case['keys'])
+    mask = rb_mask(case)
     out = []
     stuck = None
     i = 0
     for ei in range(len(case['events'])):
-        chunk = mo[i:i + 1 + nk]
-        i += 1 + nk
-        if len(chunk) < 1 + nk or any(c == ['stuck'] for c in chunk):
+        n = 1 + nk if mask[ei] else 1
+        chunk = mo[i:i + n]
+        i += n
+        if len(chunk) < n or any(c == ['stuck'] for c in chunk):
             stuck = ei
             break
-        out.append([canon_event_obs(chunk[0]), [canon_event_obs(c)[1] for c in chunk[1:]]])
+        out.append([canon_event_obs(chunk[0]), [canon_event_obs(c)[1] for c in chunk[1:]] if mask[ei] else None])
     return out, stuck
 
 # ------------------------------------------------------------------ implementation side
@@ -407,7 +432,18 @@ class Driver:
                     raise RuntimeError('query does not end')
             return ['all', res]
         if k == 'clear':
-            r = yp.clear()
+            via = e[1] if len(e) > 1 else 'api'
+            if via == 'api':
+                r = yp.clear()
+            else:
+                # clear() called by a registered Python predicate that runs as a goal (directly, or from a compiled clause)
+                # while other goals of this engine are suspended
+                def py_clear():
+                    yp.clear()
+                    yield False
+                yp.register_function('py_clear', py_clear)
+                n = _drain(yp.query('py_clear' if via == 'py' else 'w_py_clear', []))
+                r = None if n == 1 else ('%d answers' % n)
             yp.load_script_from_string(wrapper_python())
             return ['ok'] if r is None else ['returned', repr(r)]
         raise ValueError(e)
@@ -452,6 +488,11 @@ def strip_obs(o):
         return ['ok']
     return o
 
+def _short(rb):
+    """read-backs of big predicates: print the rows in which the two sides can differ compactly"""
+    r = repr(rb)
+    return r if len(r) < 1500 else r[:700] + ' ... ' + r[-700:]
+
 def compare_events(case, io, mo):
     m, stuck = split_model_obs(case, mo)
     io = [[strip_obs(a[0]), a[1]] if len(a) == 2 else a for a in io]
@@ -466,8 +507,8 @@ def compare_events(case, io, mo):
             return 'event %d %r: implementation raised %s (%s); model: %r' % (i, case['events'][i], a[1], a[2], b[0])
         if a[0] != b[0]:
             return 'event %d %r: implementation %r, model %r' % (i, case['events'][i], a[0], b[0])
-        if a[1] != b[1]:
-            return 'after event %d %r: database read back as %r, model %r' % (i, case['events'][i], a[1], b[1])
+        if b[1] is not None and a[1] != b[1]:
+            return 'after event %d %r: database read back as %s, model %s' % (i, case['events'][i], _short(a[1]), _short(b[1]))
     return None
 
 # ------------------------------------------------------------------ intrinsic oracle (no model)
@@ -488,6 +529,71 @@ def _linear_vars(args):
     """the arguments are pairwise different variables (the pattern matches every fact and an answer IS the fact)"""
     return all(a[0] == 'v' for a in args) and len({a[1] for a in args}) == len(args)
 
+class _Cyclic(Exception):
+    pass
+
+def _walk(t, s):
+    while t[0] == 'v' and t[1] in s:
+        t = s[t[1]]
+    return t
+
+def _occurs(v, t, s):
+    t = _walk(t, s)
+    if t[0] == 'v':
+        return t[1] == v
+    if t[0] == 'f':
+        return any(_occurs(v, a, s) for a in t[2])
+    return False
+
+def _unify(a, b, s):
+    a = _walk(a, s); b = _walk(b, s)
+    if a[0] == 'v' and b[0] == 'v' and a[1] == b[1]:
+        return True
+    if a[0] == 'v' or b[0] == 'v':
+        if b[0] != 'v' or (a[0] == 'v' and a[1] >= 1000):
+            a, b = b, a                          # b is the variable that gets bound
+        if _occurs(b[1], a, s):
+            raise _Cyclic()
+        s[b[1]] = a
+        return True
+    if a[0] != b[0]:
+        return False
+    if a[0] == 'f':
+        return a[1] == b[1] and len(a[2]) == len(b[2]) and all(_unify(x, y, s) for x, y in zip(a[2], b[2]))
+    return a[1] == b[1]
+
+def _subst(t, s):
+    t = _walk(t, s)
+    if t[0] == 'f':
+        return ['f', t[1], [_subst(a, s) for a in t[2]]]
+    return t
+
+def _shift(t):
+    if t[0] == 'v':
+        return ['v', 1000 + t[1]]
+    if t[0] == 'f':
+        return ['f', t[1], [_shift(a) for a in t[2]]]
+    return t
+
+def expected_answer(pat_args, row):
+    """what a goal with the arguments pat_args answers on the stored fact `row` (a read-back row): the arguments under the
+    most general unifier with a renamed copy of the fact, canonical; None = no match.  Written down independently of the
+    engine and of the Coq model (first-order unification on the JSON terms); _Cyclic = outside the specified domain."""
+    fact = [_shift(terms.obs_term(o)) for o in row]
+    if len(fact) != len(pat_args):
+        return None
+    sub = {}
+    for p_, f_ in zip(pat_args, fact):
+        if not _unify(p_, f_, sub):
+            return None
+    return canon_args([terms.term_obs(_subst(p_, sub)) for p_ in pat_args])
+
+def expected_answers(pat_args, rows):
+    try:
+        return [a for a in (expected_answer(pat_args, r) for r in rows) if a is not None]
+    except (_Cyclic, RecursionError):
+        return None
+
 def list_oracle(case, io):
     """the property's own conditions that can be stated on the implementation alone"""
     keys = [tuple(k) for k in case['keys']]
@@ -495,6 +601,8 @@ def list_oracle(case, io):
     cur_key = {}
     snap = {}          # query cursor -> [facts of its predicate when it was started (first next), answers so far, linear?]
     pat_of = {}
+    # in histories with operations over the variables of open cursors a pattern can be bound from outside: no prediction
+    opened_case = has_open(case['events'])
     for i, (e0, o) in enumerate(zip(case['events'], io)):
         if o == ['deep']:
             return None
@@ -521,25 +629,40 @@ def list_oracle(case, io):
             # had facts at its first next(); with an all-variables pattern its answers are exactly those facts, in order
             c = e[1]
             if c not in snap:
-                snap[c] = [prev[keys.index(cur_key[c][0])], 0, _linear_vars(pat_of[c])]
+                facts0 = prev[keys.index(cur_key[c][0])]
+                # round 4: for ANY pattern, the answers the matching facts of the snapshot give, in order (unification
+                # written down here, independent of engine and model); None = abstain (a match would build a cyclic term)
+                snap[c] = [facts0, 0, _linear_vars(pat_of[c]), None if opened_case else expected_answers(pat_of[c], facts0)]
             if r[0] == 'ans':
-                facts, n, lin = snap[c]
+                facts, n, lin, exp = snap[c]
                 if n >= len(facts):
                     return ('event %d %r: answer number %d of a query whose predicate had %d facts when it started (%r)'
                             % (i, e, n + 1, len(facts), r[1]))
                 if lin and r[1] != facts[n]:
                     return ('event %d %r: answer number %d of an all-variables query is %r, the fact at that position when '
                             'it started was %r' % (i, e, n + 1, r[1], facts[n]))
+                if exp is not None and n < 10 ** 8:
+                    if n >= len(exp):
+                        return ('event %d %r: answer number %d (%r) of a query of which only %d facts of the list it started on match'
+                                % (i, e, n + 1, r[1], len(exp)))
+                    if r[1] != exp[n]:
+                        return ('event %d %r: answer number %d is %r; the %d. matching fact of the list the query started on gives %r'
+                                % (i, e, n + 1, r[1], n + 1, exp[n]))
                 snap[c][1] = n + 1
             elif r == ['end'] and snap[c][2] and snap[c][1] < len(snap[c][0]):
                 return ('event %d %r: an all-variables query ended after %d answers, its predicate had %d facts when it started'
                         % (i, e, snap[c][1], len(snap[c][0])))
+            elif r == ['end'] and snap[c][3] is not None and snap[c][1] < len(snap[c][3]):
+                return ('event %d %r: the query ended after %d answers; %d facts of the list it started on match (next: %r)'
+                        % (i, e, snap[c][1], len(snap[c][3]), snap[c][3][snap[c][1]]))
             if r == ['end']:
                 snap[c][1] = 10 ** 9      # exhausted: any further answer is one too many
                 snap[c][2] = False
+                snap[c][3] = None
         if e[0] in ('close', 'drop') and e[1] in snap:
             snap[e[1]][1] = 10 ** 9       # closed: any further answer is one too many
             snap[e[1]][2] = False
+            snap[e[1]][3] = None
         for j, kk in enumerate(keys):
             changed = rb[j] != prev[j]
             if e[0] == 'assert' and kk == k:
@@ -573,6 +696,10 @@ def list_oracle(case, io):
             kk = (e[1], len(e[2]))
             if kk in keys and len(r[1]) > len(prev[keys.index(kk)]):
                 return 'event %d: more answers than facts' % i
+            if kk in keys and e0[0] != 'open':
+                exp = expected_answers(e[2], prev[keys.index(kk)])
+                if exp is not None and r[1] != exp:
+                    return ('event %d %r: answers %s; the matching facts of the list, in order, give %s' % (i, e, _short(r[1]), _short(exp)))
         prev = rb
     return None
 
@@ -656,6 +783,8 @@ def show_event(e):
         return 'retractall(%s) [%s]' % (st(e[1]), e[2])
     if e[0] == 'qall':
         return 'all %s(%s)' % (e[1], ','.join(st(a) for a in e[2]))
+    if e[0] == 'clear' and len(e) > 1:
+        return 'clear [%s]' % e[1]
     return e[0]
 
 def gen_history(rng, nops, interleave, nkeys=None):
@@ -832,6 +961,249 @@ def gen_nonlifo(rng):
                 if rng.random() < 0.5:
                     evs.append([rng.choice(['close', 'drop']), c])
     return {'events': evs, 'keys': case_keys(evs), 'shape': 'nonlifo'}
+
+# ------------------------------------------------------------------ big predicates: size classes, first arguments of every kind
+
+BIG_SIZES = [0, 1, 3, 8, 14, 15, 16, 17, 18, 15, 16, 17, 20, 24, 31, 32, 33, 40, 48, 64]
+CLEAR_VIAS = ['api', 'api', 'py', 'compiledpy']
+
+def gen_big_history(rng, maxsize=64, sizes=None):
+    """ONE predicate that holds 0-3, about 16 (14..18), 20-31 or 32-64 facts (loaded first, mostly through assert_fact),
+    whose FIRST ARGUMENTS are atoms only (one key / 2-3 keys: a table), atoms and integers, or a mix of atoms, integers,
+    variables, structures, strings, [] in any order (possibly a variable-first fact at the very front); then queries and
+    retracts with a bound (atom / integer / absent key / structure) and an unbound first argument through the API, a compiled
+    clause, call/1 and goals in bound variables, left suspended while assertz (of a fact with the SAME first argument as a
+    suspended goal, or any) / asserta / retract / retractall / clear / complete queries run; the size crosses the classes in
+    both directions (a few more facts, a retractall of one key); cursors resumed, one of them to exhaustion."""
+    name = rng.choice(NAMES)
+    ar = rng.choice([1, 2, 2, 2, 3])
+    prof = rng.choice(['atoms', 'atoms', 'atoms', 'onekey', 'atomint', 'mixed', 'mixed', 'mixed', 'mixed'])
+    size = rng.choice(sizes or [s_ for s_ in BIG_SIZES if s_ <= maxsize])
+    nkeys = rng.choice([2, 3])
+    atoms = [['a', x] for x in ATOMS[:nkeys]]
+    serial = [0]
+    def first():
+        if prof == 'onekey':
+            return ['a', 'a']
+        if prof == 'atoms':
+            return rng.choice(atoms)
+        if prof == 'atomint':
+            return rng.choice(atoms[:2] + [['i', 1], ['i', 2]])
+        q = rng.random()
+        if q < 0.45:
+            return rng.choice(atoms)
+        if q < 0.6:
+            return ['i', rng.choice([1, 2])]
+        if q < 0.78:
+            return ['v', 0]
+        if q < 0.88:
+            return ['f', 'f', [rng.choice(atoms + [['v', 0]])]]
+        if q < 0.91:
+            return ['s', 'a']                      # the string 'a' is not the atom a
+        if q < 0.94:
+            return ['a', '1']                      # the atom '1' is not the integer 1
+        if q < 0.97:
+            return ['a', '[]']
+        return mklist_a()
+    def mklist_a():
+        return terms.mklist([['a', 'a']], ['v', 1] if rng.random() < 0.5 else None)
+    def fact(fst=None):
+        serial[0] += 1
+        args = [fst or first()]
+        for i in range(1, ar):
+            q = rng.random()
+            if i == 1 and q < 0.8:
+                args.append(['i', serial[0]])
+            elif q < 0.9:
+                args.append(['v', rng.choice([0, 1])])
+            else:
+                args.append(rng.choice(atoms))
+        return ['f', name, args]
+    evs = []
+    varfront = prof == 'mixed' and rng.random() < 0.6
+    allfront = rng.random() < 0.1
+    for i in range(size):
+        fst = ['v', 0] if (varfront and i == (size - 1 if allfront else 0)) else None
+        evs.append(['assert', allfront or rng.random() < 0.08, fact(fst), rng.choice(['api'] * 8 + ['builtin', 'compiled'])])
+    bulk = max(0, size - 1)
+    live = {}
+    pfirst = {}
+    nextc = [0]
+    def pat_first():
+        q = rng.random()
+        if q < 0.6:
+            return rng.choice(atoms[:2] + ([['i', 1]] if prof in ('atomint', 'mixed') else []))
+        if q < 0.85:
+            return ['v', 0]
+        if q < 0.89:
+            return ['a', 'zz']
+        if q < 0.93:
+            return ['f', 'f', [['v', 0]]]
+        if q < 0.96:
+            return rng.choice([['a', '1'], ['s', 'a'], ['a', '[]']])
+        return ['i', 2]
+    def pattern(bound=False):
+        args = [pat_first()]
+        if bound and args[0][0] not in ('a', 'i'):
+            args[0] = rng.choice(atoms[:2])
+        for i in range(1, ar):
+            q = rng.random()
+            args.append(['v', i] if q < 0.8 else (['v', 0] if q < 0.88 else ['i', rng.randrange(1, serial[0] + 2)]))
+        return args
+    def start(kind, bound=False):
+        c = nextc[0]; nextc[0] += 1
+        args = pattern(bound)
+        pfirst[c] = args[0]
+        if kind == 'q':
+            evs.append(['start', c, 'q', name, args, rng.choice(['api', 'api', 'compiled', 'call'])])
+        else:
+            evs.append(['start', c, 'r', ['f', name, args], rng.choice(['builtin', 'builtin', 'boundvar', 'compiled'])])
+        return c
+    for _op in range(rng.choice([6, 10, 16, 24])):
+        if live and rng.random() < 0.45:
+            c = rng.choice(sorted(live))
+            if live[c] <= 0:
+                evs.append([rng.choice(['close', 'drop']), c]); del live[c]
+                continue
+            for _ in range(min(live[c], rng.choice([1, 1, 2, 3, 5]))):
+                evs.append(['next', c]); live[c] -= 1
+            continue
+        q = rng.random()
+        if rng.random() < 0.35:
+            # the logical update view on a predicate of this size: a goal is started and suspended, the predicate is changed
+            # at once (nothing else in between), the goal is resumed until it ends (a retract: a few answers, then closed)
+            kind = 'q' if rng.random() < 0.75 else 'r'
+            c = start(kind, rng.random() < 0.6)
+            evs.extend(['next', c] for _ in range(rng.choice([1, 1, 2])))
+            same = pfirst[c] if pfirst[c][0] in ('a', 'i') else None
+            w = rng.choice(['assertz', 'assertz', 'assertz', 'assertz', 'asserta', 'retract', 'retractall'])
+            if w in ('assertz', 'asserta'):
+                for _ in range(rng.choice([1, 1, 2, 3])):
+                    evs.append(['assert', w == 'asserta', fact(same if rng.random() < 0.85 else None),
+                                rng.choice(['api', 'api', 'builtin', 'compiled', 'boundvar'])])
+            elif w == 'retract':
+                c2 = start('r')
+                evs.extend([['next', c2], [rng.choice(['close', 'drop']), c2]])
+            else:
+                evs.append(['retractall', ['f', name, pattern()], rng.choice(['builtin', 'boundvar', 'compiled'])])
+            if kind == 'q':
+                evs.extend(['next', c] for _ in range(min(serial[0] + 2, 70)))
+            else:
+                evs.extend(['next', c] for _ in range(rng.choice([1, 2, 5])))
+                evs.append([rng.choice(['close', 'drop']), c])
+            continue
+        if q < 0.24:
+            c = start('q')
+            live[c] = rng.choice([1, 2, 3, 6, 12])
+            evs.append(['next', c]); live[c] -= 1
+        elif q < 0.36:
+            c = start('r')
+            live[c] = rng.choice([1, 2, 3, 6])
+            evs.append(['next', c]); live[c] -= 1
+        elif q < 0.62:
+            # a new fact, mostly with the first argument a suspended goal was called with
+            bound = [pfirst[c] for c in live if pfirst[c][0] in ('a', 'i')]
+            fst = rng.choice(bound) if bound and rng.random() < 0.7 else None
+            for _ in range(rng.choice([1, 1, 1, 2, 3])):
+                evs.append(['assert', rng.random() < 0.2, fact(fst), rng.choice(['api', 'api', 'builtin', 'compiled', 'boundvar'])])
+        elif q < 0.70:
+            c = start('r')
+            evs.append(['next', c])
+            if rng.random() < 0.7:
+                evs.append([rng.choice(['close', 'drop']), c])
+            else:
+                live[c] = rng.choice([1, 2])
+        elif q < 0.77:
+            evs.append(['retractall', ['f', name, pattern()], rng.choice(['builtin', 'builtin', 'boundvar', 'compiled'])])
+        elif q < 0.94:
+            evs.append(['qall', name, pattern()])
+        else:
+            evs.append(['clear', rng.choice(CLEAR_VIAS)])
+    # the cursors that are still suspended are resumed; one of them until it ends
+    rest = sorted(live)
+    rng.shuffle(rest)
+    for j, c in enumerate(rest):
+        n = min(serial[0] + 2, 45) if j == 0 else rng.choice([0, 1, 2, 5])
+        evs.extend(['next', c] for _ in range(n))
+        if rng.random() < 0.3:
+            evs.append(['assert', False, fact(pfirst[c] if pfirst[c][0] in ('a', 'i') else None), 'api'])
+    case = {'events': evs, 'keys': case_keys(evs), 'shape': 'big', 'bulk': bulk, 'bulk_rb': True, 'size': size, 'profile': prof}
+    return case
+
+def spread(cases, extra):
+    """extra inserted into cases at regular distances (the expensive ones do not end up in one file of the model run)"""
+    if not extra:
+        return cases
+    out = []
+    step = max(1, len(cases) // len(extra))
+    it = iter(extra)
+    for i, c in enumerate(cases):
+        out.append(c)
+        if i % step == step - 1:
+            x = next(it, None)
+            if x is not None:
+                out.append(x)
+    out.extend(it)
+    return out
+
+# ------------------------------------------------------------------ clear() while queries and retracts are suspended
+
+def gen_clear_history(rng):
+    """1-2 predicates with 2-6 facts; 1-4 cursors (queries and retracts through every route) started and advanced so that
+    candidates are LEFT in their snapshots; then clear() - through the API, or called by a Python predicate that runs as a goal
+    of its own or inside a compiled clause while the cursors are suspended; then (sometimes) facts equal to the old ones are
+    asserted again; then every cursor is resumed until it ends.  The engine as it is: a query goes on in the list it read, a
+    retract finds none of its candidates in the (new) store and ends, nothing it was holding comes back."""
+    nk = rng.choice([1, 1, 2])
+    keys = []
+    while len(keys) < nk:
+        k = (rng.choice(NAMES), rng.choice([0, 1, 1, 1, 2]))
+        if k not in keys:
+            keys.append(k)
+    evs = []
+    facts = {k: [] for k in keys}
+    for k in keys:
+        for _ in range(rng.choice([2, 3, 3, 4, 6])):
+            t = gen_goal(rng, k[0], k[1], 0.05)
+            facts[k].append(t)
+            evs.append(['assert', False, t, rng.choice(['api', 'api', 'builtin', 'compiled'])])
+    nextc = [0]
+    for _round in range(rng.choice([1, 1, 2])):
+        cs = []
+        for _ in range(rng.choice([1, 2, 2, 3, 4])):
+            k = keys[0] if rng.random() < 0.7 else rng.choice(keys)
+            _, allvars, pat = _key_terms(rng, k)
+            c = nextc[0]; nextc[0] += 1
+            p = pat()
+            if rng.random() < 0.6:
+                evs.append(['start', c, 'r', p, rng.choice(['builtin', 'builtin', 'boundvar', 'compiled'])])
+            else:
+                evs.append(['start', c, 'q', k[0], p[2] if p[0] == 'f' else [], rng.choice(['api', 'compiled', 'call'])])
+            # 0 = created but not started (reads the store at its first next, after the clear)
+            evs.extend(['next', c] for _ in range(rng.choice([0, 1, 1, 1, 2])))
+            cs.append(c)
+            if rng.random() < 0.2:
+                evs.append(['assert', rng.random() < 0.3, gen_goal(rng, k[0], k[1], 0.05), 'api'])
+        evs.append(['clear', rng.choice(CLEAR_VIAS)])
+        if rng.random() < 0.6:
+            # the same facts again: new Answer objects, equal to the ones the suspended goals still hold
+            for k in keys:
+                for t in facts[k]:
+                    if rng.random() < 0.6:
+                        evs.append(['assert', rng.random() < 0.2, t, rng.choice(['api', 'builtin', 'compiled'])])
+        order = list(cs)
+        rng.shuffle(order)
+        for c in order:
+            evs.extend(['next', c] for _ in range(rng.choice([1, 3, 8])))
+            if rng.random() < 0.3:
+                k = rng.choice(keys)
+                evs.append(['assert', False, gen_goal(rng, k[0], k[1], 0.05), 'api'])
+        for c in order:
+            if rng.random() < 0.5:
+                evs.append(['next', c])
+            if rng.random() < 0.4:
+                evs.append([rng.choice(['close', 'drop']), c])
+    return {'events': evs, 'keys': case_keys(evs), 'shape': 'clear'}
 
 # ------------------------------------------------------------------ operations over the variables of open cursors
 
@@ -1485,6 +1857,19 @@ def gen_dbprog(rng, loopy=0.6, ctrl=0.5):
         case['clear_first'] = True
         case['nilq'] = rng.choice([None, 'pat', 'fact'])
         case['api_nil'] = rng.choice(['atom', 'ATOM_NIL', 'makelist'])
+    return case
+
+def gen_dbprog_grown(rng, loopy=0.6, ctrl=0.3):
+    """round 4: a generated program whose init clause (>= 3 asserts) is run 4-8 times before the main clause, so that the
+    predicates the main clause enumerates, updates and queries with bound arguments hold about 12-40 facts (one clause body
+    cannot assert more than ~18: CPython's limit of nested blocks); compared with DbProg like every other program"""
+    for _ in range(50):
+        case = gen_dbprog(rng, loopy, ctrl)
+        if sum(1 for g in case['clauses'][0]['body'] if g[0] == 'as') >= 3:
+            break
+    k = rng.choice([4, 5, 6, 8])
+    case['queries'] = [case['queries'][0]] * k + case['queries'][1:]
+    case['grown'] = k
     return case
 
 def dbprog_corpus():
